@@ -27,7 +27,26 @@ func (w *World) CopyTo(src int, flushEvery int) {
 		before = append([]byte(nil), w.File.Data...)
 	}
 	dst := &MemFile{}
+	if w.DstFault != nil {
+		w.DstFault(dst)
+	}
 	res, err := st.CopyTo(dst, flushEvery)
+	dst.FaultMode = 0
+	if dst.FaultsHit > 0 {
+		// fault on the destination file: error required, source untouched
+		w.FaultOps = append(w.FaultOps, label)
+		if err == nil {
+			w.Fail("fault", "swallowed-in-CopyTo", "%s reported success although the destination file failed a call", label)
+		}
+		if res != nil && err != nil {
+			w.Fail("fault", "data-with-error-in-CopyTo", "%s returned a store alongside the error", label)
+		}
+		w.logf("%s=FAULT(dst)", label)
+		return
+	}
+	if w.faulted(label, err, true, err != nil && res != nil) {
+		return
+	}
 	w.logf("%s=%s", label, errs(err))
 	if err != nil || res == nil {
 		w.Fail("copyto", "error", "%s returned (%v, %v)", label, res, err)
